@@ -1,5 +1,5 @@
 (* C10 - Each request reaches exactly the authenticator method for its command. *)
-From Ctap Require Import Base Schema Wire Typed Procs Inst Tables ProcTables Finite FramingP FnShapes Shapes ObShapeDispatch.
+From Ctap Require Import Base Schema Wire Typed Procs Inst Tables ProcTables Finite FramingP FnShapes Shapes ObShapeDispatch Deps ObDeps.
 Local Open Scope string_scope.
 Local Open Scope Z_scope.
 
@@ -89,9 +89,14 @@ Proof. vm_compute. reflexivity. Qed.
 Theorem c10_modelled_functions_unchanged_dispatch : shapes_hold fn_shapes shapes_dispatch = true.
 Proof. exact generated_shapes_dispatch. Qed.
 
+(* the third-party crates the model represents by hand are pinned at the versions it was written against *)
+Theorem c10_modelled_dependencies_pinned : deps_hold lock_versions cargo_deps = true.
+Proof. exact generated_deps. Qed.
+
 Eval vm_compute in "ASSUMPTIONS c10_ctap2". Print Assumptions c10_ctap2.
 Eval vm_compute in "ASSUMPTIONS c10_ctap1". Print Assumptions c10_ctap1.
 Eval vm_compute in "ASSUMPTIONS c10_exactly_one_call". Print Assumptions c10_exactly_one_call.
 Eval vm_compute in "ASSUMPTIONS c10_get_info_infallible". Print Assumptions c10_get_info_infallible.
 Eval vm_compute in "ASSUMPTIONS c10_generated_tables". Print Assumptions c10_generated_tables.
 Eval vm_compute in "ASSUMPTIONS c10_modelled_functions_unchanged_dispatch". Print Assumptions c10_modelled_functions_unchanged_dispatch.
+Eval vm_compute in "ASSUMPTIONS c10_modelled_dependencies_pinned". Print Assumptions c10_modelled_dependencies_pinned.
